@@ -3,8 +3,8 @@ import ScriggoV.Lemmas.LexerPos8
 namespace ScriggoV.Lexer
 open ScriggoV ScriggoV.Gen.LexTables ScriggoV.Spec.Position
 
-theorem step_pos {E : Env} (hal : Aligned E.text) (hno : NoLFCR E.text) (hC : CodePosSpec E) {F : Fixed} {st : St}
-    {lp : Loop} {o : Out} (hI : PInv E st lp) (hq : QuoteOK lp.quote) (h : step E F st lp = .ok o) : OutPos E o := by
+theorem step_pos {E : Env} (hal : Aligned E.text) (hno : NoLFCR E.text) (hC : CodePosSpec E) {st : St}
+    {lp : Loop} {o : Out} (hI : PInv E st lp) (hq : QuoteOK lp.quote) (h : step E st lp = .ok o) : OutPos E o := by
   unfold step at h
   cases hc : srcAt E st lp.p with
   | error f => rw [hc] at h; cases h
@@ -95,7 +95,7 @@ theorem step_pos {E : Env} (hal : Aligned E.text) (hno : NoLFCR E.text) (hC : Co
                 refine ⟨by intro t hm; rw [hs1] at hm; exact hI1.toks t hm, ?_⟩
                 apply errorf_pos
                 rw [hs1]; exact hI1.cur
-            · cases hcs : ctxSwitch E F st lp1 c with
+            · cases hcs : ctxSwitch E (fixedOf st) st lp1 c with
               | error f => rw [hcs] at h; cases h
               | ok o1 =>
                 rw [hcs] at h
@@ -115,9 +115,9 @@ theorem step_pos {E : Env} (hal : Aligned E.text) (hno : NoLFCR E.text) (hC : Co
                     all_goals rfl
                   rw [this]; exact pc.2
 
-theorem mainLoop_pos {E : Env} (hal : Aligned E.text) (hno : NoLFCR E.text) (hC : CodePosSpec E) {F : Fixed} :
+theorem mainLoop_pos {E : Env} (hal : Aligned E.text) (hno : NoLFCR E.text) (hC : CodePosSpec E) :
     ∀ (fuel : Nat) (st : St) (lp : Loop) (st' : St) (lp' : Loop) (e : Option LexErr),
-    mainLoop E F fuel st lp = .ok (st', lp', e) → PInv E st lp → QuoteOK lp.quote →
+    mainLoop E fuel st lp = .ok (st', lp', e) → PInv E st lp → QuoteOK lp.quote →
     AllTok E st' ∧ (∀ err, e = some err → ErrPosOK E err) ∧ (e = none → PInv E st' lp') := by
   intro fuel
   induction fuel with
@@ -126,7 +126,7 @@ theorem mainLoop_pos {E : Env} (hal : Aligned E.text) (hno : NoLFCR E.text) (hC 
     intro st lp st' lp' e h hI hq
     unfold mainLoop at h
     split at h
-    · cases hs : step E F st lp with
+    · cases hs : step E st lp with
       | error f => rw [hs] at h; cases h
       | ok o =>
         rw [hs] at h
@@ -172,17 +172,17 @@ theorem scanCodeBlock_pos {E : Env} {st : St} {p : Nat} (hp : PosAt E st (st.bas
     · exact hp
   · exact hp
 
-theorem scanTemplateBody_pos {E : Env} (hal : Aligned E.text) (hno : NoLFCR E.text) (hC : CodePosSpec E) {st st' : St}
-    {e : Option LexErr} (hb : st.base = 0) (hti : st.tagIndex = 0) (hp : PosAt E st 0) (ha : AllTok E st)
-    (h : scanTemplateBody E st = .ok (st', e)) :
+theorem scanTemplateFrom_pos {E : Env} (hal : Aligned E.text) (hno : NoLFCR E.text) (hC : CodePosSpec E) {st st' : St}
+    {e : Option LexErr} (hb : st.base = 0) (hti : st.tagIndex = 0) (hbal : Bal st) (hp : PosAt E st 0) (ha : AllTok E st)
+    (h : scanTemplateFrom E st = .ok (st', e)) :
     AllTok E st' ∧ (∀ err, e = some err → ErrPosOK E err) ∧ (e = none → PosAt E st' st'.base) := by
-  unfold scanTemplateBody at h
+  unfold scanTemplateFrom at h
   simp only [] at h
   -- the state and position after the optional code block indentation
   have hinit : ∃ p0 st0, (if st.ctx = ContextMarkdown then
         ((scanCodeBlock E st 0).1, { (scanCodeBlock E st 0).2.2 with ctx := (scanCodeBlock E st 0).2.1 })
       else (0, st)) = (p0, st0) ∧ st0.base = 0 ∧ st0.toks = st.toks ∧ PosAt E st0 (0 + p0) ∧ p0 ≤ srcLen E st0 ∧
-        st0.tagIndex = 0 := by
+        st0.tagIndex = 0 ∧ Bal st0 := by
     split
     · obtain ⟨hs, _, hle⟩ := scanCodeBlock_ok (E := E) st 0 (Nat.zero_le _)
       refine ⟨_, _, rfl, by show (scanCodeBlock E st 0).2.2.base = 0; rw [hs.base]; exact hb, hs.toks, ?_, ?_, ?_⟩
@@ -190,10 +190,13 @@ theorem scanTemplateBody_pos {E : Env} (hal : Aligned E.text) (hno : NoLFCR E.te
         rw [hb] at this; exact this
       · show (scanCodeBlock E st 0).1 ≤ srcLen E (scanCodeBlock E st 0).2.2
         rw [hs.srcLen]; exact hle
-      · show (scanCodeBlock E st 0).2.2.tagIndex = 0
-        rw [hs]; exact hti
-    · exact ⟨0, st, rfl, hb, rfl, hp, Nat.zero_le _, hti⟩
-  obtain ⟨p0, st0, hi, hb0, ht0, hp0, hle0, hti0⟩ := hinit
+      · refine ⟨?_, ?_⟩
+        · show (scanCodeBlock E st 0).2.2.tagIndex = 0
+          rw [hs]; exact hti
+        · show (scanCodeBlock E st 0).2.2.bases.length = (scanCodeBlock E st 0).2.2.contexts.length
+          rw [hs.bases, hs.contexts]; exact hbal
+    · exact ⟨0, st, rfl, hb, rfl, hp, Nat.zero_le _, hti, hbal⟩
+  obtain ⟨p0, st0, hi, hb0, ht0, hp0, hle0, hti0, hbal0⟩ := hinit
   have hi' : (if st.ctx = ContextMarkdown then
       match scanCodeBlock E st 0 with
       | (p, ctx, st) => (p, { st with ctx := ctx })
@@ -203,7 +206,7 @@ theorem scanTemplateBody_pos {E : Env} (hal : Aligned E.text) (hno : NoLFCR E.te
   simp only [] at h
   have hI0 : PInv E st0 { p := p0, lin := st.line, tcol := st.col, quote := 0, emittedURL := false, jsComment := 0, spacesOnly := true } :=
     ⟨by rw [hb0]; exact hp0, by rw [hb0]; exact hp, by intro t hm; rw [ht0] at hm; exact ha t hm⟩
-  cases hml : mainLoop E { fileCtx := st.ctx, isHTML := decide (st.ctx = ContextHTML ∨ st.ctx = ContextMarkdown) } (mainFuel E) st0
+  cases hml : mainLoop E (mainFuel E) st0
       { p := p0, lin := st.line, tcol := st.col, quote := 0, emittedURL := false, jsComment := 0, spacesOnly := true } with
   | error f => rw [hml] at h; cases h
   | ok r =>
@@ -221,8 +224,7 @@ theorem scanTemplateBody_pos {E : Env} (hal : Aligned E.text) (hno : NoLFCR E.te
       -- the loop ended at `p = len(l.src)` (Lemmas/Lexer/Loop.lean)
       have hL0 : LoopInv E st0 { p := p0, lin := st.line, tcol := st.col, quote := 0, emittedURL := false, jsComment := 0, spacesOnly := true } :=
         ⟨by rw [hb0]; exact Nat.zero_le _, hle0, by rw [hti0]; exact Nat.zero_le _⟩
-      obtain ⟨s1', lp1', e1', hml', _, hend⟩ := mainLoop_ok (codeSpec E)
-        (F := { fileCtx := st.ctx, isHTML := decide (st.ctx = ContextHTML ∨ st.ctx = ContextMarkdown) }) (mainFuel E) st0 _ hL0 (by
+      obtain ⟨s1', lp1', e1', hml', _, hend⟩ := mainLoop_ok (codeSpec E) (mainFuel E) st0 _ hL0 hbal0 (by
           unfold mu mainFuel
           have := attrCtx_le st0.ctx
           omega)
@@ -253,6 +255,13 @@ theorem scanTemplateBody_pos {E : Env} (hal : Aligned E.text) (hno : NoLFCR E.te
             exact ⟨a3, (fun err hh => by cases hh), fun _ => by rw [b3]; simpa using posAt_congr hs2.2 l3 c3⟩
           · simp only [pure_eq_ok] at h3; cases h3
             exact ⟨hs2.1, (fun err hh => by cases hh), fun _ => hs2.2⟩
+
+/-- the template branch of `scan`: `l.base = l.ctx` (a field the positions do not depend on), then the loop -/
+theorem scanTemplateBody_pos {E : Env} (hal : Aligned E.text) (hno : NoLFCR E.text) (hC : CodePosSpec E) {st st' : St}
+    {e : Option LexErr} (hb : st.base = 0) (hti : st.tagIndex = 0) (hbal : Bal st) (hp : PosAt E st 0) (ha : AllTok E st)
+    (h : scanTemplateBody E st = .ok (st', e)) :
+    AllTok E st' ∧ (∀ err, e = some err → ErrPosOK E err) ∧ (e = none → PosAt E st' st'.base) :=
+  scanTemplateFrom_pos hal hno hC (st := { st with lbase := st.ctx }) hb hti hbal hp ha h
 
 /-- the source does not start with a shebang line `#!` -/
 def NoShebang (t : Bytes) : Prop := ¬ (t[0]? = some (0x23 : UInt8) ∧ t[1]? = some (0x21 : UInt8))
@@ -292,6 +301,7 @@ theorem scanWith_pos {E : Env} (hal : Aligned E.text) (hno : NoLFCR E.text) (hns
   have hb0 : st0.base = 0 := by rw [← hinit]; rfl
   have ht0 : st0.toks = [] := by rw [← hinit]; rfl
   have hti0 : st0.tagIndex = 0 := by rw [← hinit]; rfl
+  have hbal0 : Bal st0 := by rw [← hinit]; rfl
   have hp0 : PosAt E st0 0 := by rw [← hinit]; rfl
   have ha0 : AllTok E st0 := by intro t hm; rw [ht0] at hm; cases hm
   rw [shebang_none hb0 hns] at h
@@ -304,7 +314,7 @@ theorem scanWith_pos {E : Env} (hal : Aligned E.text) (hno : NoLFCR E.text) (hns
     simp only [bind_ok] at h
     have hres : AllTok E s1 ∧ (∀ err, e1 = some err → ErrPosOK E err) ∧ (e1 = none → PosAt E s1 s1.base) := by
       split at hbody
-      · exact scanTemplateBody_pos hal hno hC hb0 hti0 hp0 ha0 hbody
+      · exact scanTemplateBody_pos hal hno hC hb0 hti0 hbal0 hp0 ha0 hbody
       · obtain ⟨a, b, c⟩ := hC.ok tokenEOF st0 s1 e1 hbody (by rw [hb0]; exact hp0) ha0
         exact ⟨a, b, fun hn => (c hn).1⟩
     obtain ⟨a1, he1, hp1⟩ := hres
